@@ -12,8 +12,8 @@ from ..trace import normalise, tree_form
 
 ID = "C13"
 LEVEL = "fault_enumeration"
-BUDGET = {"quick": 320, "thorough": 6000}
-SHARDS = {"quick": 8, "thorough": 16}
+BUDGET = {"quick": 480, "thorough": 6000}
+SHARDS = {"quick": 16, "thorough": 16}
 RULE = (
     "Programs as in C12 (nested, sibling nested graphs, gates, loops, map, cache hits, failing nodes; sync/async/scheduled). A "
     "baseline call with one healthy recorder yields N events; then for EVERY event index k < N (all k when N <= 24 quick / 40 thorough, else that many drawn "
